@@ -20,7 +20,7 @@ Print Assumptions C17_scaling.
 (* non-vacuity: a transformed looping program that runs to completion *)
 Example C17_scaling_nonvacuous :
   let cs := [CSet 0 (1#2) [5%Z]; CWait 1; CLabel 0%Z 2%Z; CInc 0 (1#4) [5%Z]; CWait 1; CJmp 0%Z] in
-  exists cs' h t, transform [(2, 1#4)] cs = Ok cs' /\ run_vm_n 20 1 cs' = Ok (h, t) /\ length h = 3%nat.
+  exists cs' h t, transform [(2#1, 1#4)] cs = Ok cs' /\ run_vm_n 20 1 cs' = Ok (h, t) /\ length h = 3%nat.
 Proof. cbv zeta. eexists; eexists; eexists. split; [reflexivity|]. split; [vm_compute; reflexivity|reflexivity]. Qed.
 
 (* The increment kernel (DepState.required_increment_from), any nesting depth and any factors: if the register was
